@@ -14,7 +14,38 @@ use crate::rng::hash_bytes;
 use pkgsrc::{Depend, Pattern, PkgPath};
 use std::str::FromStr;
 
+/// One input judged against the rule (acceptance only).
+fn acceptance(s: &str) -> Result<(), String> {
+    let want = om::pkgpath_rule(s).is_some();
+    let got = PkgPath::new(s).is_ok();
+    if got != want {
+        return Err(format!("PkgPath::new({s:?}) accepts = {got}, the rule says {want}"));
+    }
+    Ok(())
+}
+
 fn check_path(ev: &mut Ev, s: &str) -> CaseResult {
+    check_path_inner(ev, s)?;
+    // The verdict on one input may not depend on which inputs were parsed
+    // just before it: right after `s`, its relatives - `s` without / with a
+    // leading "../../" or "./", with a trailing "/" - are judged on their own,
+    // and then `s` once more.
+    let mut rel: Vec<String> = vec![format!("../../{s}"), format!("./{s}"), format!("{s}/")];
+    for pre in ["../../", "../", "./", "/"] {
+        if let Some(t) = s.strip_prefix(pre) {
+            rel.push(t.to_string());
+        }
+    }
+    for t in &rel {
+        ev.eval();
+        ev.count("path/relatives");
+        acceptance(t).map_err(|m| format!("{m} (asked right after {s:?})"))?;
+    }
+    acceptance(s).map_err(|m| format!("{m} (asked again after its relatives)"))?;
+    Ok(())
+}
+
+fn check_path_inner(ev: &mut Ev, s: &str) -> CaseResult {
     let rule = om::pkgpath_rule(s);
     let got = PkgPath::new(s);
     let got_fs = PkgPath::from_str(s);
